@@ -518,6 +518,16 @@ class Lower:
             return self.pat_pred(e[1], env)
         self.die("unsupported pattern argument %r" % (e,))
 
+    def str_pat(self, e):
+        """a string-literal (or single char literal) pattern -> its bytes, else None"""
+        while e[0] in ("ref", "paren"):
+            e = e[1]
+        if e[0] == "lit_str":
+            return zlist(e[1])
+        if e[0] == "lit_chr":
+            return zlist(e[1])
+        return None
+
     def charpat(self, pat, v):
         """a pattern over one char/byte value -> boolean Gallina expression about variable v"""
         if pat[0] == "plit":
@@ -719,6 +729,8 @@ class Lower:
             if mode != "pure" and mode != "option":
                 self.die("call of %s (which can panic) inside an expression" % name)
             return "(g_%s %s)" % (name, " ".join(args)), rty
+        if name and getattr(self, "compiler", None) is not None and self.compiler(name):
+            return self.low_call(e, env)
         self.die("call of unknown function %s" % (name or f,))
 
     def low_method(self, e, env):
@@ -748,7 +760,21 @@ class Lower:
             if name in ("find", "rfind") and n == 1:
                 return "(%s_pat %s %s)" % (name, self.pat_pred(args[0], env), r), opt(NAT)
             if name in ("contains", "starts_with", "ends_with") and n == 1:
+                lit = self.str_pat(args[0])
+                if lit is not None:
+                    return "(%s_str %s %s)" % (name, lit, r), BOOL
                 return "(str_%s %s %s)" % (name, self.pat_pred(args[0], env), r), BOOL
+            if name in ("strip_prefix", "strip_suffix") and n == 1:
+                lit = self.str_pat(args[0])
+                if lit is None:
+                    self.die(".%s with a pattern that is not a string or char literal" % name)
+                return "(%s_str %s %s)" % (name, lit, r), opt(STR)
+            if name in ("trim_start_matches", "trim_end_matches", "trim_matches") and n == 1:
+                return "(%s %s %s)" % (name, self.pat_pred(args[0], env), r), STR
+            if name == "eq_ignore_ascii_case" and n == 1:
+                o, to = a(0)
+                self.want(to, STR, "eq_ignore_ascii_case argument")
+                return "(str_eq_ignore_ascii_case %s %s)" % (r, o), BOOL
             if name == "is_empty" and n == 0:
                 return "(str_is_empty %s)" % r, BOOL
             if name == "len" and n == 0:
@@ -756,7 +782,8 @@ class Lower:
             if name in ("to_lowercase", "to_uppercase", "to_ascii_lowercase", "to_ascii_uppercase") and n == 0:
                 return "(str_%s %s)" % (name.replace("ascii_", ""), r), STR
         if ty == CHR and n == 0:
-            m = {"is_ascii_alphabetic": "is_alpha", "is_ascii_hexdigit": "is_hex"}
+            m = {"is_ascii_alphabetic": "is_alpha", "is_ascii_hexdigit": "is_hex", "is_ascii_uppercase": "is_upper_ascii",
+                 "is_ascii_lowercase": "is_lower_ascii", "is_ascii_digit": "is_digit_ascii", "is_ascii_alphanumeric": "is_alnum_ascii"}
             if name in m:
                 return "(%s %s)" % (m[name], r), BOOL
         if isinstance(ty, tuple) and ty[0] == "list":
@@ -862,24 +889,43 @@ class Lower:
                 self.die("FileKind match does not list every kind")
             return "(match %s with %s end)" % (s, " ".join(out)), rty
         if isinstance(ty, tuple) and ty[0] == "opt":
-            some = none = None
-            for pat, guard, body in arms:
-                if guard is not None:
-                    self.die("guarded Option arm")
-                if pat[0] == "pctor" and pat[1] == ["Some"] and len(pat[2]) == 1 and pat[2][0][0] in ("pvar", "pwild") and some is None:
-                    some = (pat[2][0][1] if pat[2][0][0] == "pvar" else "_", body)
-                elif (pat[0] == "pwild" or (pat[0] == "pctor" and pat[1] == ["None"])) and none is None:
-                    none = body
-                else:
+            # arms in order; a guarded `Some(x) if g` arm falls through to the arms after it
+            def build(rest, for_some, var):
+                if not rest:
+                    self.die("Option match is not exhaustive")
+                pat, guard, body = rest[0]
+                is_some = pat[0] == "pctor" and pat[1] == ["Some"] and len(pat[2]) == 1 and pat[2][0][0] in ("pvar", "pwild")
+                is_none = pat[0] == "pctor" and pat[1] == ["None"] and not pat[2]
+                is_wild = pat[0] == "pwild"
+                if not (is_some or is_none or is_wild):
                     self.die("unsupported Option match arm %r" % (pat,))
-            if some is None or none is None:
-                self.die("Option match without both arms")
-            env2 = dict(env)
-            if some[0] != "_":
-                env2[some[0]] = ty[1]
-            a, ta = self.low(some[1], env2)
-            b, tb = self.low(none, env)
-            return "(match %s with Some %s => %s | None => %s end)" % (s, some[0], a, b), self.unify(ta, tb, "match arms")
+                if (for_some and is_none) or (not for_some and is_some):
+                    return build(rest[1:], for_some, var)
+                env2 = dict(env)
+                pre = ""
+                if is_some and pat[2][0][0] == "pvar":
+                    env2[pat[2][0][1]] = ty[1]
+                    if pat[2][0][1] != var:
+                        pre = "let %s := %s in " % (pat[2][0][1], var)
+                t, tb = self.low(body, env2)
+                if guard is None:
+                    return "(%s%s)" % (pre, t), tb
+                if not is_some and not is_wild:
+                    self.die("guard on a None arm")
+                g, tg = self.low(guard, env2)
+                self.want(tg, BOOL, "match guard")
+                t2, tb2 = build(rest[1:], for_some, var)
+                return "(%sif %s then %s else %s)" % (pre, g, t, t2), self.unify(tb, tb2, "match arms")
+            named = [pat[2][0][1] for pat, _, _ in arms
+                     if pat[0] == "pctor" and pat[1] == ["Some"] and len(pat[2]) == 1 and pat[2][0][0] == "pvar"]
+            if named:
+                var = named[0]
+            else:
+                self.fresh += 1
+                var = "_s%d" % self.fresh
+            a_, ta = build(arms, True, var)
+            b_, tb = build(arms, False, var)
+            return "(match %s with Some %s => %s | None => %s end)" % (s, var, a_, b_), self.unify(ta, tb, "match arms")
         self.die("match on a value of type %r" % (ty,))
 
     # ---- blocks / statements -------------------------------------------------------------------
@@ -1076,30 +1122,47 @@ def main():
     except OSError as e:
         die("cannot read the source: %s" % e)
     funs, defs = {}, []
-    partial = 0
-    for name in ORDER:
+    state = {"partial": 0, "busy": []}
+    ptmap = {k.replace(" ", ""): v for k, v in PARAM_TYPES.items()}
+
+    def compile_fn(name, required=True):
+        """compile lib.rs `fn name` (and, on demand, the helper functions it calls) -> True when g_<name> is defined"""
+        if name in funs:
+            return True
+        if name in state["busy"]:
+            die("lib.rs fn %s is recursive" % name)
+        if not required and not re.search(r"\bfn\s+%s\s*(<[^>]*>)?\s*\(" % re.escape(name), lib):
+            return False
+        state["busy"].append(name)
         params, ret, body = find_fn(lib, name, "lib.rs")
         ptys = []
         for pn, pt in params:
             key = pt.replace(" ", "")
-            if key not in {k.replace(" ", "") for k in PARAM_TYPES}:
+            if key not in ptmap:
                 die("lib.rs fn %s: parameter %s has the unknown type %s" % (name, pn, pt))
-            ptys.append({k.replace(" ", ""): v for k, v in PARAM_TYPES.items()}[key])
+            ptys.append(ptmap[key])
         rkey = ret.replace(" ", "")
         if rkey not in RET_TYPES:
             die("lib.rs fn %s: unknown return type %s" % (name, ret))
         rty = RET_TYPES[rkey]
         mode = "outcome" if contains_unwrap(body) else ("option" if isinstance(rty, tuple) and rty[0] == "opt" else None)
         lw = Lower(name, funs)
+        lw.compiler = lambda callee: compile_fn(callee, required=False)
         env = {pn: ty for (pn, _), ty in zip(params, ptys)}
         text, ty = lw.low_block(body, env, mode)
         exp = ("outcome", rty) if mode == "outcome" else rty
         if ty != exp and not (isinstance(ty, tuple) and ty[0] == "opt" and ty[1] is None and exp[0] == "opt"):
             die("lib.rs fn %s: the body has type %r, the signature says %r" % (name, ty, exp))
-        partial += lw.partial_ops
+        state["partial"] += lw.partial_ops
         funs[name] = (ptys, rty, mode or "pure")
         sig = " ".join("(%s : %s)" % (pn, coq_ty(t)) for (pn, _), t in zip(params, ptys))
         defs.append("Definition g_%s %s : %s :=\n  %s." % (name, sig, coq_ty(exp), text))
+        state["busy"].pop()
+        return True
+
+    for name in ORDER:
+        compile_fn(name)
+    partial = state["partial"]
     # minidump-common/src/utils.rs basename (re-exported as breakpad_symbols::basename; used for display and for the
     # `code_file` query parameter, never for a path): compiled too, and proved equal to leafname in C17/Tie.v
     try:
